@@ -37,7 +37,8 @@ type target struct {
 var targets = []target{
 	{dir: "internal/parser", files: []string{"chunk.go", "field.go", "field_parser.go", "parser.go"},
 		funcs: []string{"isNewlineChar", "NewlineIndex", "NextChunk", "trimFirstSpace", "getFieldName", "splitFunc",
-			"FieldParser.scanSegment", "FieldParser.doRemoveBOM", "FieldParser.Next", "FieldParser.Reset", "FieldParser.RemoveBOM"},
+			"FieldParser.scanSegment", "FieldParser.doRemoveBOM", "FieldParser.Next", "FieldParser.Reset", "FieldParser.RemoveBOM",
+			"FieldParser.KeepComments", "FieldParser.Started", "FieldParser.Err"},
 		out: "Parser"},
 	{dir: ".", files: []string{"message.go", "replay.go"}, funcs: []string{"isSingleLine", "topicsIntersect"}, out: "Root"},
 }
